@@ -212,6 +212,15 @@ Proof.
     rewrite app_nil_r. cbn [zb map str_eqb]. reflexivity.
 Qed.
 
+(* the same after a call that left no saved line *)
+Lemma readline_none : forall t ln,
+  R.diffReader_readline (zb t) ln None X_ReadString X_TrimSuffix =
+  match rl_next None t with
+  | None => Ok ([], Some (XVar "io.EOF"), zb [], ln, None)
+  | Some (l, t') => Ok (zb l, None, zb t', ln + 1, None)
+  end.
+Proof. intros t ln. exact (C14_readline_is_source t None ln). Qed.
+
 Lemma C14_unread_is_source : forall sv l, R.diffReader_unread sv l = Some l.
 Proof. reflexivity. Qed.
 
